@@ -10,6 +10,8 @@ def drive(tier, seed, deep, salt, gen, check, shrink=None, classify=None, n_quic
         n *= 4
     findings, evals, distinct, sample, seen = [], 0, set(), None, set()
     for _ in range(n):
+        if core.search_expired():
+            break
         case = gen(rng)
         evals += 1
         distinct.add(repr(case))
@@ -43,7 +45,7 @@ def _short(case):
 def shrink_ops(case, check, field="ops"):
     ops = list(case[field])
     i = len(ops) - 1
-    while i >= 0:
+    while i >= 0 and not core.search_expired():
         cand = dict(case)
         cand[field] = ops[:i] + ops[i + 1 :]
         if cand[field]:
